@@ -16837,6 +16837,11 @@ func ShouldHardReset(subcode uint8, hardResetOnAdminReset bool) bool {
 type BGPKeepAlive struct{}
 
 func (msg *BGPKeepAlive) DecodeFromBytes(data []byte, options ...*MarshallingOption) error {
+	// RFC 4271 Section 6.1: a KEEPALIVE message consists of only the
+	// message header, its Length must be 19.
+	if len(data) != 0 {
+		return NewMessageError(BGP_ERROR_MESSAGE_HEADER_ERROR, BGP_ERROR_SUB_BAD_MESSAGE_LENGTH, nil, "KEEPALIVE message length is not 19")
+	}
 	return nil
 }
 
